@@ -40,6 +40,18 @@ def main():
                 continue
             pid, k = name.split("-")
             src_dir = os.path.dirname(r["patch"])
+            stored = os.path.join(VERIF, "seeded", name)
+            if os.path.abspath(src_dir) == os.path.abspath(stored):
+                # already kept: refresh only which rules report it
+                mp = os.path.join(stored, "meta.json")
+                meta = json.load(open(mp))
+                fired = r.get("fired", {})
+                meta["reported_by"] = {p: {"exit": v["rc"], "rules": v["rules"], "first_report": v["first"]} for p, v in sorted(fired.items())}
+                meta["caught_by_its_property"] = bool(r.get("caught_by_target"))
+                meta["checks_last_run_against_commit"] = head
+                json.dump(meta, open(mp, "w"), indent=1)
+                kept += 1
+                continue
             notes = {}
             try:
                 nl = json.load(open(os.path.join(src_dir, "notes.json")))
